@@ -8,6 +8,9 @@ p = props[pid]
 tag = '%s-%s' % (pid, n)
 wt = '/tmp/wt-%s-%s' % (kind, tag)
 out = '/tmp/%s-%s' % (kind, tag)
+if kind == 'mild':
+    wt = '/tmp/wt-mild-%s' % tag
+    out = '/tmp/mild-%s' % tag
 prev = []
 if kind == 'seed':
     for m in sorted(glob.glob('/verif/seeded/%s-*/meta.json' % pid)):
@@ -18,11 +21,15 @@ common = '''You are working on the Rust project nervosnetwork/ckb-light-client (
 worktree of it is at %(wt)s — work ONLY there (never touch /repo or /verif, never read /verif). The sandbox has no network;
 always pass --offline to cargo. The dependency build is already warm in %(wt)s/target: `cargo test --offline --no-run` rebuilds
 only the crate (~35 s); the whole suite `cargo test --offline` has 115 tests and runs in ~30 s. Other agents share the machine, so
-do not run more than one cargo command at a time. Note: the HEAD of this worktree already contains many commits starting with
+do not run more than one cargo command at a time, and NEVER use `git stash` (the stash is shared by all worktrees of the
+repository; use `git diff > file`, `git checkout -- .`, `git apply file` instead). Note: the HEAD of this worktree already contains many commits starting with
 "fix:" that repaired earlier defects; treat the code as it is now as the reference behaviour.
 
 %(prop)s
 ''' % {'wt': wt, 'prop': prop_text}
+mild = kind == 'mild'
+if mild:
+    kind = 'benign'
 if kind == 'seed':
     body = '''Task: produce ONE realistic change to the production code (src/, not tests) that BREAKS this property while the crate still
 compiles (no new warnings needed) and ALL 115 existing tests still pass. It should look like something a maintainer could plausibly
@@ -60,7 +67,7 @@ between checks whose order is unobservable); changing log lines, comments, error
 adding an extra (redundant but harmless) sanity check that rejects only inputs that were rejected anyway; introducing a local
 variable for a repeated expression; moving a function to another place in the file or to another module; adding a field or a
 method that nothing in the property depends on; `a > b` to `b < a`; `!x.is_empty()` to `x.len() > 0` and the like.
-Touch at least 3 functions and make at least 40 changed lines; be bold in restructuring but scrupulous about equivalence.
+%(size)s
 
 Deliverables, in the directory %(out)s/ (create it):
   patch.diff — `git diff` of the change (applies with `git apply` on the worktree's HEAD)
@@ -68,8 +75,8 @@ Deliverables, in the directory %(out)s/ (create it):
                 "files": [...], "ran": ["<commands and results>"]}
 Before finishing verify: the crate compiles and all 115 tests pass with the change (`cargo test --offline`). Leave the worktree in
 place (I will remove it). Your final message: 5 lines at most.
-''' % {'out': out, 'pid': pid}
+''' % {'out': out, 'pid': pid, 'size': ('Keep it a SMALL everyday commit: 15-40 changed lines in 1-3 functions, e.g. rename two or three locals, add or reword a log line, extract ONE small helper (or turn one nested if into an early return), swap two independent checks; nothing clever.' if mild else 'Touch at least 3 functions and make at least 40 changed lines; be bold in restructuring but scrupulous about equivalence.')}
 os.makedirs('/tmp/prompts', exist_ok=True)
-f = '/tmp/prompts/%s-%s.md' % (kind, tag)
+f = '/tmp/prompts/%s-%s.md' % ('mild' if mild else kind, tag)
 open(f, 'w').write(common + '\n' + body)
 print(f, wt)
